@@ -92,14 +92,27 @@ def parsed_exprs(p, f, depth=2):
         elif depth > 0:
             g_ = _cli_callee(p, x)
             if g_ is not None and g_.qualname != f.qualname:
-                inner = {norm(e) for e, _ in parsed_exprs(p, g_, depth - 1)}
+                inner_exprs = parsed_exprs(p, g_, depth - 1)
+                inner = {norm(e) for e, _ in inner_exprs}
                 prm = [q for q in g_.params if q not in ("self", "cls")]
+                binding = {}
                 for i, a_ in enumerate(x.args):
-                    if i < len(prm) and prm[i] in inner:
-                        out.append((a_, x))
+                    if i < len(prm):
+                        binding[prm[i]] = a_
+                        if prm[i] in inner:
+                            out.append((a_, x))
                 for k in x.keywords:
+                    if k.arg:
+                        binding[k.arg] = k.value
                     if k.arg in inner:
                         out.append((k.value, x))
+                # what the callee parses as a function of its parameters (F(p1, p2)) is, at this call, F(<arg1>, <arg2>)
+                import copy as _copy
+                for e, _site in inner_exprs:
+                    if isinstance(e, ast.Call) and e.args and all(isinstance(z, ast.Name) and z.id in binding for z in e.args) and not e.keywords:
+                        e2 = _copy.deepcopy(e)
+                        e2.args = [_copy.deepcopy(binding[z.id]) for z in e.args]
+                        out.append((e2, x))
     return out
 
 
